@@ -11,9 +11,11 @@
 #include <list>
 #include <new>
 
-static const char ALPHA[] = { 'a', 'b', ' ' };
+static const std::vector<char> ALPHA = { 'a', 'b', ' ' };
+// second alphabet: a std::string may hold zero bytes; nothing may treat them as terminators
+static const std::vector<char> ALPHA0 = { 'a', '\0' };
 
-static std::vector<std::string> all_strings(int maxlen)
+static std::vector<std::string> all_strings(int maxlen, const std::vector<char>& alpha = ALPHA)
 {
     std::vector<std::string> out = { "" };
     size_t from = 0;
@@ -21,7 +23,7 @@ static std::vector<std::string> all_strings(int maxlen)
     {
         size_t to = out.size();
         for (size_t i = from; i < to; i++)
-            for (char c : ALPHA)
+            for (char c : alpha)
                 out.push_back(out[i] + c);
         from = to;
     }
@@ -244,6 +246,16 @@ int main(int argc, char** argv)
     }
     auto strings = all_strings(L);
     auto small = all_strings(3);
+    {
+        // the {a, NUL} alphabet, shorter bound
+        auto s0 = all_strings(std::min(L, 5), ALPHA0), p0 = all_strings(3, ALPHA0);
+        for (auto& x : s0)
+            if (x.find('\0') != std::string::npos)
+                strings.push_back(x);
+        for (auto& x : p0)
+            if (x.find('\0') != std::string::npos)
+                small.push_back(x);
+    }
     auto elems = all_strings(2);
     std::vector<std::string> infixes = { " ", ",", ", ", "", "ab" };
     mc::Sharded sh;
@@ -332,7 +344,7 @@ int main(int argc, char** argv)
     rep.counters["bound_string_len"] = L;
     rep.counters["strings"] = strings.size();
     rep.counters["patterns_and_replacements"] = small.size();
-    rep.notes["rule"] = "every string over {a,b,blank} of length <= bound x every separator/pattern of length <= 3 (empty included) for "
+    rep.notes["rule"] = "every string over {a,b,blank} of length <= bound (and over {a,NUL} up to length 5) x every separator/pattern of length <= 3 (empty included) for "
                         "split / starts_with, x every replacement of length <= 3 for replace_all; every list of <= 3 elements of "
                         "length <= 2 x 5 infixes for join; non-trivial = (string, pattern) pairs where the pattern occurs";
     mc::write_out(a, rep);
